@@ -26,24 +26,32 @@ META = dict(
 )
 
 
-def world(ctx, n, with_vanish=False):
+NASTY = [b"proc", b"x) S 1 (y", b"a) b", b"(( ) )"]
+
+
+def world(ctx, n, with_vanish=False, names=False):
+    """names: one process (symbolic which) carries a name from NASTY -- parentheses and blanks that imitate the end of the name field
+    and a following state letter and parent PID"""
     k = simk.Kernel(ctx)
     simk.system_files(k)
     pids = [10 + 3 * i for i in range(n)]
     pp, st = {}, {}
+    odd = ctx.choice("odd_named", pids) if names else None
+    oddname = ctx.choice("odd_name", NASTY[1:]) if names else None
     for p in pids:
         pp[p] = ctx.int(f"ppid{p}", 0, 100)
         ctx.assume(ctx.any([ctx.eq(pp[p], q) for q in pids] + [ctx.eq(pp[p], UNLISTED)]))
         st[p] = ctx.int(f"start{p}", 0, 10**6)
         simk.full_process(k, p)
-        k.files[f"/proc/{p}/stat"] = simk.stat_record(k, p, b"proc", b"S", {4: pp[p], 22: st[p]})
+        k.files[f"/proc/{p}/stat"] = simk.stat_record(k, p, oddname if p == odd else b"proc", b"S", {4: pp[p], 22: st[p]})
     k.dirs["/proc"] = [str(p) for p in pids] + ["self", "stat", "net"]
     return k, pids, pp, st
 
 
-@harness("C05.children", quick=[dict(n=n, recursive=r) for n in (1, 2, 3) for r in (False, True)], thorough=[dict(n=n, recursive=r) for n in (1, 2, 3, 4, 5, 6) for r in (False, True)])
-def children(ctx, n, recursive):
-    k, pids, pp, st = world(ctx, n)
+@harness("C05.children", quick=[dict(n=n, recursive=r) for n in (1, 2, 3) for r in (False, True)] + [dict(n=2, recursive=r, names=True) for r in (False, True)],
+         thorough=[dict(n=n, recursive=r) for n in (1, 2, 3, 4, 5, 6) for r in (False, True)] + [dict(n=n, recursive=r, names=True) for n in (2, 3) for r in (False, True)])
+def children(ctx, n, recursive, names=False):
+    k, pids, pp, st = world(ctx, n, names=names)
     caller = pids[0]
     with k.installed():
         me = psutil.Process(caller)
@@ -230,3 +238,25 @@ def after_iter(ctx, which, n=3):
                     ctx.assume(False)
             got = ctx.guard("no-exception", me.parents)
             ctx.prove([p.pid for p in got] == chain, "parents-chain", detail=f"{[p.pid for p in got]} vs {chain}")
+
+
+@harness("C05.children_twice", quick=[dict(recursive=r) for r in (False, True)], thorough=[dict(recursive=r, n=n) for r in (False, True) for n in (3, 4)])
+def children_twice(ctx, recursive, n=3):
+    """children() asked twice with the tree changing in between while the SET of PIDs stays the same (a process exits, stays listed as
+    a zombie and its child is re-parented; or a PID is recycled between the calls): the second answer describes the new tree"""
+    k, pids, pp, st = world(ctx, n)
+    caller = pids[0]
+    with k.installed():
+        me = psutil.Process(caller)
+        ctx.guard("no-exception", me.children, recursive=recursive)
+        moved = ctx.choice("reparented", pids[1:])
+        new_pp = ctx.int("new_ppid", 0, 100)
+        ctx.assume(ctx.any([ctx.eq(new_pp, q) for q in pids] + [ctx.eq(new_pp, UNLISTED)]))
+        pp[moved] = new_pp
+        if ctx.flag("pid_recycled"):          # not a re-parenting: another process has taken the PID
+            ns = ctx.int("new_start", 0, 10**6)
+            ctx.assume(ctx.neg(ctx.eq(ns, st[moved])))
+            st[moved] = ns
+        k.files[f"/proc/{moved}/stat"] = simk.stat_record(k, moved, b"proc", b"S", {4: pp[moved], 22: st[moved]})
+        got = ctx.guard("no-exception", me.children, recursive=recursive)
+    check_children(ctx, pids, pp, st, caller, [c.pid for c in got], recursive)
